@@ -71,6 +71,8 @@ def validate(ctx, pid, traces, label):
                 % (tr["meta"].get("mode", label) + " " + tr["consts"]["op"], tr["consts"]["fmt"], len(tr["consts"]["writers"]), tr["consts"]["K"], tr["consts"]["N"],
                    len(tr["consts"]["servers"]), l, json.dumps({k: v for k, v in e.items() if k != "detail"})[:300], clause))
 
+    for tr in traces:
+        tr["consts"]["focus"] = pid
     saved = ctx.findings
     ctx.findings = []
     ctx.trace("mutable/TracePublishProtocol", traces, key_of=key_of, what_of=what_of, batch=400)
